@@ -10,10 +10,10 @@ package main
 //	struct value / pointer           -> {"t": "<GoType>", "ptr": bool, "f": {"<Field>": <fieldtree>, …}}   unset fields omitted
 //	nil pointer to struct            -> {"t": "<GoType>", "ptr": true, "nil": true}
 //
-// field trees: string-like -> "<string>"; NaturalLanguageValues -> [["tag","text"],…] (nil omitted, empty = []);
-// Item -> tree; ItemCollection -> [<tree>…]; time.Time -> [unixSec, nsec, zoneOffsetSec]; Duration -> ns;
-// float64 -> {"dec6": k} meaning k/10^6; ints/uints -> number; bool -> bool;
-// Source -> {"Content":…, "MediaType":…}; PublicKey -> {"ID","Owner","PublicKeyPem"}; *Endpoints -> {"<Field>": tree}.
+// field trees are self-describing: Item -> item tree; ItemCollection -> {"list": [<tree>…]};
+// NaturalLanguageValues -> {"nlv": [["tag","text"],…]} (nil omitted, empty = []); time.Time -> {"time": [unixSec, nsec, zoneOffsetSec]};
+// Duration -> {"dur": ns}; string-like -> {"s": "<string>"}; float64 -> {"dec6": k} meaning k/10^6; int64 -> {"int": n};
+// uint -> {"uint": n}; bool -> {"bool": b}; Source / PublicKey / *Endpoints -> {"rec": {"<Field>": fieldtree, …}}.
 
 import (
 	"fmt"
@@ -90,8 +90,8 @@ func fieldKind(goType, field string) string {
 
 func kindOfType(ft reflect.Type) string {
 	switch {
-	case ft == tItem:
-		return "item"
+	case ft == tItem || (ft.Kind() == reflect.Interface && ft.NumMethod() == tItem.NumMethod() && ft.Implements(tItem)):
+		return "item" // Item itself and defined interface types with its method set (CanReceiveActivities)
 	case ft == tItems:
 		return "items"
 	case ft == tNLV:
@@ -261,54 +261,28 @@ func fillStruct(sv reflect.Value, f T) {
 				fv.Set(reflect.ValueOf(it))
 			}
 		case "items":
-			fv.Set(reflect.ValueOf(buildItems(val)))
+			fv.Set(reflect.ValueOf(buildItems(val.(T)["list"])))
 		case "nlv":
-			fv.Set(reflect.ValueOf(buildNLV(val)))
+			fv.Set(reflect.ValueOf(buildNLV(val.(T)["nlv"])))
 		case "time":
-			fv.Set(reflect.ValueOf(buildTime(val)))
+			fv.Set(reflect.ValueOf(buildTime(val.(T)["time"])))
 		case "duration":
-			fv.SetInt(int64(num(val)))
+			fv.SetInt(int64(num(val.(T)["dur"])))
 		case "string":
-			fv.SetString(val.(string))
+			fv.SetString(val.(T)["s"].(string))
 		case "float":
 			fv.SetFloat(num(val.(T)["dec6"]) / 1e6)
 		case "int":
-			fv.SetInt(int64(num(val)))
+			fv.SetInt(int64(num(val.(T)["int"])))
 		case "uint":
-			fv.SetUint(uint64(num(val)))
+			fv.SetUint(uint64(num(val.(T)["uint"])))
 		case "bool":
-			fv.SetBool(val.(bool))
-		case "source":
-			m := val.(T)
-			s := ap.Source{}
-			if c, ok := m["Content"]; ok {
-				s.Content = buildNLV(c)
-			}
-			if mt, ok := m["MediaType"]; ok {
-				s.MediaType = ap.MimeType(mt.(string))
-			}
-			fv.Set(reflect.ValueOf(s))
-		case "pubkey":
-			m := val.(T)
-			k := ap.PublicKey{}
-			if v, ok := m["ID"]; ok {
-				k.ID = ap.ID(v.(string))
-			}
-			if v, ok := m["Owner"]; ok {
-				k.Owner = ap.IRI(v.(string))
-			}
-			if v, ok := m["PublicKeyPem"]; ok {
-				k.PublicKeyPem = v.(string)
-			}
-			fv.Set(reflect.ValueOf(k))
+			fv.SetBool(val.(T)["bool"].(bool))
+		case "source", "pubkey":
+			fillStruct(fv, val.(T)["rec"].(T))
 		case "endpoints":
 			e := &ap.Endpoints{}
-			ev := reflect.ValueOf(e).Elem()
-			for en, et := range val.(T) {
-				if it := buildItem(et); it != nil {
-					ev.FieldByName(en).Set(reflect.ValueOf(it))
-				}
-			}
+			fillStruct(reflect.ValueOf(e).Elem(), val.(T)["rec"].(T))
 			fv.Set(reflect.ValueOf(e))
 		default:
 			panic("unhandled field kind for " + name)
@@ -417,24 +391,24 @@ func dumpStruct(sv reflect.Value) T {
 			}
 		case "items":
 			if !fv.IsNil() {
-				out[sf.Name] = dumpItems(fv.Interface().(ap.ItemCollection))
+				out[sf.Name] = T{"list": dumpItems(fv.Interface().(ap.ItemCollection))}
 			}
 		case "nlv":
 			if !fv.IsNil() {
-				out[sf.Name] = dumpNLV(fv.Interface().(ap.NaturalLanguageValues))
+				out[sf.Name] = T{"nlv": dumpNLV(fv.Interface().(ap.NaturalLanguageValues))}
 			}
 		case "time":
 			t := fv.Interface().(time.Time)
 			if !t.IsZero() {
-				out[sf.Name] = dumpTime(t)
+				out[sf.Name] = T{"time": dumpTime(t)}
 			}
 		case "duration":
 			if fv.Int() != 0 {
-				out[sf.Name] = fv.Int()
+				out[sf.Name] = T{"dur": fv.Int()}
 			}
 		case "string":
 			if fv.Len() > 0 {
-				out[sf.Name] = fv.String()
+				out[sf.Name] = T{"s": fv.String()}
 			}
 		case "float":
 			if fv.Float() != 0 {
@@ -442,53 +416,23 @@ func dumpStruct(sv reflect.Value) T {
 			}
 		case "int":
 			if fv.Int() != 0 {
-				out[sf.Name] = fv.Int()
+				out[sf.Name] = T{"int": fv.Int()}
 			}
 		case "uint":
 			if fv.Uint() != 0 {
-				out[sf.Name] = fv.Uint()
+				out[sf.Name] = T{"uint": fv.Uint()}
 			}
 		case "bool":
 			if fv.Bool() {
-				out[sf.Name] = true
+				out[sf.Name] = T{"bool": true}
 			}
-		case "source":
-			s := fv.Interface().(ap.Source)
-			m := T{}
-			if s.Content != nil {
-				m["Content"] = dumpNLV(s.Content)
-			}
-			if len(s.MediaType) > 0 {
-				m["MediaType"] = string(s.MediaType)
-			}
-			if len(m) > 0 {
-				out[sf.Name] = m
-			}
-		case "pubkey":
-			k := fv.Interface().(ap.PublicKey)
-			m := T{}
-			if len(k.ID) > 0 {
-				m["ID"] = string(k.ID)
-			}
-			if len(k.Owner) > 0 {
-				m["Owner"] = string(k.Owner)
-			}
-			if len(k.PublicKeyPem) > 0 {
-				m["PublicKeyPem"] = k.PublicKeyPem
-			}
-			if len(m) > 0 {
-				out[sf.Name] = m
+		case "source", "pubkey":
+			if m := dumpStruct(fv); len(m) > 0 {
+				out[sf.Name] = T{"rec": m}
 			}
 		case "endpoints":
 			if !fv.IsNil() {
-				m := T{}
-				ev := fv.Elem()
-				for j := 0; j < ev.NumField(); j++ {
-					if !ev.Field(j).IsNil() {
-						m[ev.Type().Field(j).Name] = dumpItem(ev.Field(j).Interface().(ap.Item))
-					}
-				}
-				out[sf.Name] = m
+				out[sf.Name] = T{"rec": dumpStruct(fv.Elem())}
 			}
 		default:
 			out[sf.Name] = "?" + sf.Type.String()
